@@ -70,7 +70,9 @@ def child_run(case, sb, tag, env_extra, umask=None):
     env = dict(os.environ); env.update(env_extra)
     pre = (lambda: os.umask(umask)) if umask is not None else None
     p = subprocess.run([sys.executable, script, cfile, os.path.join(sb.dir, '+ch_%s+' % tag)], capture_output=True, text=True, env=env, timeout=120, preexec_fn=pre)
-    if p.returncode != 0: return None
+    if p.returncode != 0:
+        # CMinx's own failures are part of the child's answer (run_real records them); a crash of the child is the harness's problem
+        raise impl.HarnessError('C17 child process failed (%s): %s' % (tag, p.stderr[-600:]))
     return json.loads(p.stdout.strip().split('\n')[-1])
 
 
@@ -87,7 +89,7 @@ ENVIRONMENTS = [('c-locale', dict(LC_ALL='C', LANG='C', PYTHONCOERCECLOCALE='0',
 
 def ascii_names(inp):
     def rec(ch): return all(c['name'].isascii() and rec(c.get('children', [])) for c in ch)
-    return inp['name'].isascii() and rec(inp.get('children', []))
+    return inp['name'].isascii() and rec(inp.get('children', [])) and all(h['name'].isascii() and rec(h['children']) for h in inp.get('hidden_links', []))
 
 
 def c17_suite(seed, count, out, drv, thorough=False, budget_s=None):
